@@ -342,3 +342,158 @@ def interpret_frame(func, v_exprs, gradient):
             continue
         raise AnalysisError(f"rotate_with_quaternion: statement {norm(st)[:60]}")
     raise AnalysisError("rotate_with_quaternion: no return reached")
+
+
+# ------------------------------------------------------------------------------------------------ abstract interpretation (sa.npsym) of the tails
+def _mask_prelude(frame, func, stop_index):
+    """execute the leading top-level assignments that only need what is already bound (pair-class masks, dtype/device aliases); others are skipped"""
+    given = set(frame.env)
+    for st in func.body[:stop_index]:
+        if isinstance(st, ast.Assign) and all(isinstance(t, ast.Name) and t.id not in given for t in st.targets):
+            try:
+                frame.stmt(st)
+            except AnalysisError:
+                for t in st.targets:
+                    frame.env.pop(t.id, None)
+
+
+def interpret_derivative_tail(repo):
+    """der_TETCILF from the frame-builder call to its end, on one O-C, one C-H and one H-H pair with symbolic local integrals, their derivatives, frame and
+    frame derivative (xij = 0 and r0 = 1 make the normalisation Jacobian the identity / a0, so rot_der = dRdv / a0 stays atomic).
+    Returns dict(w_x_final=(3,3,10,10) array, symbols...)."""
+    import numpy as np
+    import sympy as sp
+    from .npsym import NpSym, _Frame
+    ag = repo.mod("seqm/seqm_functions/anal_grad.py")
+    d = ag.func("der_TETCILF")
+    idx = [i for i, st in enumerate(d.body) if any(isinstance(c, ast.Call) and (call_name(c) or "").split(".")[-1] == "rotate_with_quaternion" for c in ast.walk(st))]
+    if len(idx) != 1:
+        raise AnalysisError("der_TETCILF: frame-builder call not found at the top level")
+    k = idx[0]
+    call = [c for c in ast.walk(d.body[k]) if isinstance(c, ast.Call) and (call_name(c) or "").split(".")[-1] == "rotate_with_quaternion"][0]
+    argn = call.args[0].id if call.args and isinstance(call.args[0], ast.Name) else None
+    pre = [st for st in d.body[:k] if isinstance(st, ast.Assign) and argn and any(isinstance(t, ast.Name) and t.id == argn for t in st.targets)]
+    ni, nj = np.array([8, 6, 1], dtype=np.int64), np.array([6, 1, 1], dtype=np.int64)
+    sym = lambda name, *shape: np.array([sp.Symbol(f"{name}{'_'.join(map(str, ix))}") for ix in np.ndindex(*shape)], dtype=object).reshape(shape)
+    rot, dRdv = sym("R", 3, 3, 3), sym("dR", 3, 3, 3, 3)       # rot[pair, a, b], dRdv[pair, direction, a, b]
+    ri, ri_x = sym("ri", 1, 22), sym("dri", 1, 3, 22)
+    riXH, riXH_x, riHH_x = sym("rx", 1, 4), sym("drx", 1, 3, 4), sym("dhh", 1, 3)
+    w_x_final = np.full((3, 3, 10, 10), sp.Integer(0), dtype=object)
+    params = [a.arg for a in d.args.args]
+    env = {"ni": ni, "nj": nj, "xij": np.full((3, 3), sp.Integer(0), dtype=object), "Xij": np.full((3, 3), sp.Integer(0), dtype=object),
+           "r0": np.full((3,), sp.Integer(1), dtype=object), "ri": ri, "riXH": riXH, "ri_x": ri_x, "riXH_x": riXH_x, "riHH_x": riHH_x}
+    if not params or params[0] in env:
+        raise AnalysisError("der_TETCILF: output parameter not recognised")
+    env[params[0]] = w_x_final
+    for p in params:
+        if p not in env:
+            env[p] = None
+
+    def frame_stub(v, *a, **kw):
+        if not (kw.get("calculate_gradient") or (a and a[0])):
+            raise AnalysisError("der_TETCILF: frame derivative not requested from the frame builder")
+        return rot.copy(), dRdv.copy()
+    I = NpSym(repo, stubs={"rotate_with_quaternion": frame_stub})
+    fr = _Frame(I, ag, env)
+    fr.env["dtype"], fr.env["device"] = None, None
+    _mask_prelude(fr, d, k)
+    for st in pre:
+        fr.stmt(st)
+    try:
+        fr.block(d.body[k:])
+    except Exception as e:
+        if type(e).__name__ == "_Return":
+            pass
+        else:
+            raise
+    a0 = I.global_value(ag, "a0")
+    return {"w_x_final": w_x_final, "rot": rot, "dR": dRdv / a0, "ri": ri[0], "dri": ri_x[0], "rx": riXH[0], "drx": riXH_x[0], "dhh": riHH_x[0], "func": d, "module": ag}
+
+
+def interpret_core_electron_derivative(repo):
+    """w_der after the der_TETCILF call: e1b_x / e2a_x as polynomials in the unified derivative block W[pair, direction, 10, 10] and the core charges"""
+    import numpy as np
+    import sympy as sp
+    from .npsym import NpSym, _Frame
+    ag = repo.mod("seqm/seqm_functions/anal_grad.py")
+    f = ag.func("w_der")
+    idx = [i for i, st in enumerate(f.body) if isinstance(st, ast.Expr) and isinstance(st.value, ast.Call) and (call_name(st.value) or "") == "der_TETCILF"]
+    if len(idx) != 1:
+        raise AnalysisError("w_der: call of der_TETCILF not found at the top level")
+    k = idx[0]
+    ni, nj = np.array([8, 6, 1], dtype=np.int64), np.array([6, 1, 1], dtype=np.int64)
+    W = np.array([sp.Symbol(f"W{'_'.join(map(str, ix))}") for ix in np.ndindex(3, 3, 10, 10)], dtype=object).reshape(3, 3, 10, 10)
+    tore = np.array([sp.Symbol(f"Z{z}") for z in range(9)], dtype=object)
+    env = {"ni": ni, "nj": nj, "tore": tore, "w_x": W.copy(), "rij": np.full((3,), sp.Integer(1), dtype=object)}
+    I = NpSym(repo)
+    fr = _Frame(I, ag, env)
+    _mask_prelude(fr, f, k)
+    ret = None
+    try:
+        fr.block(f.body[k + 1:])
+    except Exception as e:
+        if type(e).__name__ == "_Return":
+            ret = e.v
+        else:
+            raise
+    if not (isinstance(ret, tuple) and len(ret) == 2 and all(getattr(x, "shape", None) == (3, 3, 4, 4) for x in ret)):
+        raise AnalysisError("w_der: does not return (e1b_x, e2a_x) of shape (pairs, 3, 4, 4)")
+    return {"e1b_x": ret[0], "e2a_x": ret[1], "W": W, "tore": tore, "ni": ni, "nj": nj, "func": f, "module": ag}
+
+
+def interpret_frame_derivative(repo):
+    """rot and rot_der as der_TETCILF obtains them (frame builder with gradient, Jacobian of the normalisation, contractions), interpreted by sa.npsym for one pair with
+    bond vector u: xij = -u/|u|, r0 = |u|/a0, Xij = xij r0 a0, on the generic chart of the frame.  Also the energy-branch frame for the same vector.
+    Returns dict(rot=(3,3), rot_der=(3,3,3) [direction, i, j], rot_energy=(3,3), u=(ux,uy,uz), v_is_minus_xij=bool)."""
+    import numpy as np
+    import sympy as sp
+    from .npsym import NpSym, _Frame
+    ag = repo.mod("seqm/seqm_functions/anal_grad.py")
+    te = repo.mod("seqm/seqm_functions/two_elec_two_center_int.py")
+    d = ag.func("der_TETCILF")
+    idx = [i for i, st in enumerate(d.body) if any(isinstance(c, ast.Call) and (call_name(c) or "").split(".")[-1] == "rotate_with_quaternion" for c in ast.walk(st))]
+    if len(idx) != 1 or not (isinstance(d.body[idx[0]], ast.Assign) and isinstance(d.body[idx[0]].targets[0], ast.Tuple) and len(d.body[idx[0]].targets[0].elts) == 2
+                             and all(isinstance(e, ast.Name) for e in d.body[idx[0]].targets[0].elts)):
+        raise AnalysisError("der_TETCILF: `rot, rot_der = rotate_with_quaternion(...)` not found at the top level")
+    k = idx[0]
+    rot_name, der_name = (e.id for e in d.body[k].targets[0].elts)
+    call = [c for c in ast.walk(d.body[k]) if isinstance(c, ast.Call) and (call_name(c) or "").split(".")[-1] == "rotate_with_quaternion"][0]
+    argn = call.args[0].id if call.args and isinstance(call.args[0], ast.Name) else None
+    pre = [st for st in d.body[:k] if isinstance(st, ast.Assign) and argn and any(isinstance(t, ast.Name) and t.id == argn for t in st.targets)]
+    ux, uy, uz = sp.symbols("ux uy uz", real=True)
+    un = sp.sqrt(ux ** 2 + uy ** 2 + uz ** 2)
+    generic = lambda node: False            # generic chart: the antipodal test |1 + v_x| < eps is false
+    I = NpSym(repo, symbolic_compare=generic)
+    a0 = I.global_value(ag, "a0")
+    xij = np.array([[-ux / un, -uy / un, -uz / un]], dtype=object)
+    env = {"ni": np.array([8]), "nj": np.array([6]), "xij": xij, "r0": np.array([un / a0], dtype=object), "Xij": xij * un, "dtype": None, "device": None}
+    for p in [a.arg for a in d.args.args]:
+        env.setdefault(p, None)
+    seen = {}
+    fb = te.func("rotate_with_quaternion")
+
+    def through(v, *a, **kw):
+        seen["v"] = v
+        return I.call_function(te, fb, [v] + list(a), kw)
+    I.stubs["rotate_with_quaternion"] = through
+    fr = _Frame(I, ag, env)
+    _mask_prelude(fr, d, k)
+    for st in pre:
+        fr.stmt(st)
+    for st in d.body[k:]:
+        if isinstance(st, (ast.For, ast.While)):
+            break
+        if isinstance(st, ast.Assign) and isinstance(st.value, ast.Subscript) and isinstance(st.value.value, ast.Name) and st.value.value.id in (rot_name, der_name) \
+                and any(isinstance(n, ast.Name) and n.id in ("XH", "XX", "HH") for n in ast.walk(st.value.slice)):
+            break
+        fr.stmt(st)
+    rot, rot_der = fr.env.get(rot_name), fr.env.get(der_name)
+    if getattr(rot, "shape", None) != (1, 3, 3) or getattr(rot_der, "shape", None) != (1, 3, 3, 3):
+        raise AnalysisError("der_TETCILF: frame / frame derivative have unexpected shapes")
+    v = seen.get("v")
+    v_ok = v is not None and all(sp.simplify(v[0, c] + xij[0, c]) == 0 for c in range(3))
+    del I.stubs["rotate_with_quaternion"]
+    rot_e = I.call_function(te, fb, [np.array([[ux / un, uy / un, uz / un]], dtype=object)])
+    if getattr(rot_e, "shape", None) != (1, 3, 3):
+        raise AnalysisError("rotate_with_quaternion: energy branch does not return one 3x3 frame per pair")
+    return {"rot": rot[0], "rot_der": rot_der[0], "rot_energy": rot_e[0], "u": (ux, uy, uz), "v_is_minus_xij": v_ok, "a0": a0, "func": fb, "module": te}
